@@ -757,14 +757,14 @@ func run(c *lib.Ctx) {
 	c.Assume("one LocalDB is driven by one goroutine (the property is about sequential histories)",
 		"nested Begin is outside the statement ('an optional open transaction') and is not generated",
 		"the blockchain module's EventLocal* handlers are thin pass-throughs to the same LocalDB methods and are not driven here")
-	n := c.N(1000, 25000)
+	n := c.N(1000, 60000)
 	maxOps := 120
 	if !c.Quick() {
 		maxOps = 200
 	}
 	var mu sync.Mutex
 	minimisedFam := map[string]bool{}
-	lib.Parallel(n, 8, func(i int) {
+	lib.Parallel(n, 12, func(i int) {
 		if c.Skip(i) {
 			return
 		}
